@@ -2,7 +2,7 @@
    model's normalise / intensity, for EVERY number type (binary64 included): no algebraic law is used. *)
 From Coq Require Import List Reals.
 Import ListNotations.
-From SM Require Import Base.Num C01.Model C01.Proofs Gen.C01_code.
+From SM Require Import Base.Num C01.Model C01.Proofs Gen.C01_code Gen.C01_details.
 
 Theorem code_normalise_is_model (T : Type) (O : Ops T) (s : Sums (T:=T)) : code_normalise O s = normalise O s.
 Proof. reflexivity. Qed.
@@ -13,3 +13,11 @@ Proof.
   unfold code_intensity, intensity. try rewrite code_normalise_is_model.
   first [ reflexivity | rewrite map_map; reflexivity ].
 Qed.
+
+(* details.make_details as regenerated from the text of details.py (Gen/C01_details.v): the count of active
+   distributions, the refusal test - which stands before the selection is cut to max_pd entries - and the selection
+   are the model's *)
+Theorem code_make_details_is_model : details_translated = true -> forall max_pd lens,
+  (if code_refuses max_pd lens then TooMany
+   else Slots (map fst (code_selection max_pd lens)) (map snd (code_selection max_pd lens))) = make_details max_pd lens.
+Proof. intros Ht. try solve [vm_compute in Ht; discriminate Ht]. all: reflexivity. Qed.
